@@ -306,6 +306,8 @@ class Tr:
         if k == "var":
             if e[1] in self.env:
                 return self.expr(self.env[e[1]])
+            if e[1] in STATICS:
+                return str(STATICS[e[1]])
             return e[1]
         if k == "path":
             if tuple(e[1]) in PATHS:
@@ -419,6 +421,8 @@ class Tr:
             return f"({a} * {self.expr(args[0])})"
         if name == "next_power_of_two":
             return f"(Sketch.nextPow2 {a})"
+        if name == "count_ones" and self.d == "u64":
+            return f"(SketchWord.popCount {a})"
         if name == "is_none":
             return f"({a}).isNone"
         if name == "is_some":
@@ -497,6 +501,20 @@ class Tr:
 # ---------------------------------------------------------------- source extraction
 def read(rel):
     return open(os.path.join(REPO, "src", rel)).read()
+
+
+STATICS = {}          # `static NAME: u64 = 0x…;` of the sketch file, re-read on every run
+
+
+def load_statics():
+    STATICS.clear()
+    try:
+        src = read("common/frequency_sketch.rs")
+    except OSError:
+        return
+    for m in re.finditer(r"\bstatic\s+([A-Z_]+)\s*:\s*u64\s*=\s*(0x[0-9A-Fa-f_]+|\d[\d_]*)\s*;", src):
+        txt = m.group(2).replace("_", "")
+        STATICS[m.group(1)] = int(txt, 16) if txt.lower().startswith("0x") else int(txt)
 
 
 def fn_body(src, name, nth=0):
@@ -690,6 +708,23 @@ SITES = [
      [("cap", N), ("maximum", N)], N, "nat", [], r"self\.sample_size = (?P<e>if [^;]+);"),
     ("SketchArith", "table_size", "common/frequency_sketch.rs", "ensure_capacity", 0, "expr",
      [("maximum", N)], N, "nat", [], r"let table_size = (?P<e>if [^;]+);"),
+    # the sketch's bit tricks on one 64-bit word (sixteen 4-bit counters)
+    ("SketchBits", "counter_of_word", "common/frequency_sketch.rs", "frequency", 0, "expr",
+     [("w", U), ("start", U), ("i", U)], U, "u64", [("self.table[index]", "w")],
+     r"let count = \((?P<e>[^;]+)\) as u8;"),
+    ("SketchBits", "inc_offset", "common/frequency_sketch.rs", "increment_at", 0, "expr",
+     [("counter_index", U)], U, "u64", [], r"let offset = (?P<e>[^;]+);"),
+    ("SketchBits", "inc_mask", "common/frequency_sketch.rs", "increment_at", 0, "expr",
+     [("offset", U)], U, "u64", [], r"let mask = (?P<e>[^;]+);"),
+    ("SketchBits", "inc_room", "common/frequency_sketch.rs", "increment_at", 0, "expr",
+     [("w", U), ("mask", U)], B, "u64", [("self.table[table_index]", "w")],
+     r"if (?P<e>[^{]+?) \{ w \+="),
+    ("SketchBits", "inc_delta", "common/frequency_sketch.rs", "increment_at", 0, "expr",
+     [("offset", U)], U, "u64", [("self.table[table_index]", "w")], r"w \+= (?P<e>[^;]+);"),
+    ("SketchBits", "odd_counters", "common/frequency_sketch.rs", "reset", 0, "expr",
+     [("w", U)], N, "u64", [("*entry", "w")], r"count \+= (?P<e>[^;]+);"),
+    ("SketchBits", "halved_word", "common/frequency_sketch.rs", "reset", 0, "expr",
+     [("w", U)], U, "u64", [("*entry", "w")], r"count_ones\(\); w = (?P<e>[^;]+);"),
     # configuration
     ("Config", "max_duration_secs", "common/builder_utils.rs", "ensure_expirations_or_panic", 0, "expr",
      [("YEAR_SECONDS", N)], N, "nat", [("1_000", "1000")],
@@ -701,6 +736,9 @@ SITES = [
      [("d", N), ("max_duration", N)], B, "nat", [],
      r"if let Some\(d\) = time_to_idle \{ assert!\((?P<e>[^,]+),"),
 ]
+
+
+EXTRA_IMPORTS = {"SketchBits": "import MiniMoka.SketchWord\n"}
 
 
 def translate_site(site):
@@ -726,6 +764,7 @@ def translate_site(site):
 
 def main():
     os.makedirs(OUT, exist_ok=True)
+    load_statics()
     groups, failures = {}, []
     for site in SITES:
         try:
@@ -740,7 +779,7 @@ def main():
                 f"-- TRANSLATION FAILED for `{site[1]}` ({site[2]}, fn {site[3]}): {e!r}\n")
     for g, defs in groups.items():
         text = ("/- GENERATED by tools/translate_logic.py from /repo/src on every run. Do not edit. -/\n"
-                "import MiniMoka.Sketch\n\nnamespace MiniMoka\nnamespace Gen\nnamespace Logic\n\n"
+                "import MiniMoka.Sketch\n" + EXTRA_IMPORTS.get(g, "") + "\nnamespace MiniMoka\nnamespace Gen\nnamespace Logic\n\n"
                 + "\n".join(defs) + "\nend Logic\nend Gen\nend MiniMoka\n")
         path = os.path.join(OUT, g + ".lean")
         if not os.path.exists(path) or open(path).read() != text:
